@@ -37,7 +37,10 @@ try:
     from simple_ddl_parser import DDLParser
     pkg = os.path.dirname(simple_ddl_parser.__file__)
     out["pkg"] = pkg
-    p = DDLParser("create table t (a int);")
+    # the first parser of the process (the one that finds the cache in its state) is a non-silent one: a stale cache is
+    # an internal matter and must not surface as an error either
+    p = DDLParser("create table t (a int);", silent=False)
+    p.run()
     y = p.yacc
     prods = [(str(x), x.name, x.len, getattr(x, "func", None) if isinstance(getattr(x, "func", None), str) else getattr(getattr(x, "callable", None), "__name__", None)) for x in y.productions]
     # states without entries are left out of a table that was read from the cache file: compare the non-empty rows
